@@ -136,7 +136,9 @@ def strategies():
     # (c) near misses
     word = st.sampled_from(["nan", "inf", "-inf", "NAN", "INF", "Nan", "iNF", "nAn", "infinity", "-infinity", "nanj", "infj", "1+nanj", "0x", "0X", "0b", "0o",
                             "0b2", "0o8", "0xg", "1e", "1e+", "1E-", "e5", "E5", "_1", ",1", "_", ",", "-", "+", "--1", "+-1", "-+1", "++1", "1+", "1-", "1j1", "1jj", "1ee5", "1e5e5",
-                            "0x1p3", "12a", "1_a", "0b12", "0o78", "1__e", "1f", "1d", "1l", "1L", "0xFFg", "-_1", "-,1", "+_1", "1+2", "1-2", "1+2i", "j1", "1e5j5", "1_000x"])
+                            "0x1p3", "12a", "1_a", "0b12", "0o78", "1__e", "1f", "1d", "1l", "1L", "0xFFg", "-_1", "-,1", "+_1", "1+2", "1-2", "1+2i", "j1", "1e5j5", "1_000x",
+                            # NaN / Inf are words, not digit strings: a separator inside them comes "before the first digit" (docs/syntax.rst)
+                            "In_f", "I,nf", "I_nf", "Na_N", "N_aN", "N,aN", "-In_f", "+Na_N", "-I,nf", "Na__N", "I_n_f", "In_fj", "1+In_fj"])
     near = word.map(lambda t: dict(text=t, expect=["symbol"], cls="near-miss"))
     genword = st.builds(lambda a, b: a + b, st.one_of(digits, hexint, floatlit.filter(lambda s: "." not in s)), st.sampled_from(["x", "g", "q", "ee", "e+", "jj", "j1", "k", "L", "_x"])).filter(
         lambda t: not _is_number(t)).map(lambda t: dict(text=t, expect=["symbol"], cls="near-miss"))
